@@ -20,7 +20,7 @@ From ApiFu Require Val.Values Val.CoerceModel Val.CoerceSpec Val.CoerceProofs Re
 From ApiFu Require Import Cost.CostArgs Cost.CostArgsProofs Cost.CostFragments Cost.CostRelay Cost.CostTrace Cost.CostTraceProofs Cost.CostC04Usage Cost.CostC04 Cost.CostProj Cost.CostC04Proj.
 From ApiFu Require Val.BridgeC04Full Vld.TypeInfoPure ExeA.ArgData ExeA.ArgArgs Pipe.CostCompose Cost.CostRealDoc Cost.CostConformU Cost.CostConformDoc.
 From ApiFu Require Vld.ProofsTypeInfoValues.
-From ApiFu Require Vld.Ast Vld.ValidatorModel Vld.Hyps Vld.ProofsCommon Val.BridgeC04 Val.BridgeC04Proofs.
+From ApiFu Require Vld.Ast Vld.ValidatorModel Vld.Hyps Vld.ProofsCommon Val.BridgeC04 Val.BridgeC04Proofs Vld.ValidSpec Vld.ProofsSubscription Vld.MemoEquiv.
 Import ListNotations.
 Open Scope Z_scope.
 
@@ -431,7 +431,8 @@ Proof. exact trace_calls_reference. Qed.
     argument map that conforms to the declared argument types and is the reference coercion of what
     the client sent.
 
-    PROVED (partial): the statement with the correspondence between C04's encoding of the document
+    (Historical, round 4; the full statement is now [C14_accepted_document_cost_calls] at the end of this
+    file.)  PROVED HERE: the statement with the correspondence between C04's encoding of the document
     ([D]: AST with positions and TypeInfo annotations, schema [S]) and the encoding the cost rule's
     model walks ([ops], [frs] with C05 literals, input types [E]) as the explicit hypothesis
     [document_bridge] (Cost/CostC04.v): three implications, each from a specification fact C04 PROVES
@@ -448,7 +449,7 @@ Proof. exact trace_calls_reference. Qed.
     ([obj_free_lit_nodup]).  The request-side facts (the conclusions of the three implications, and the
     schema-side hypotheses) are evaluated by the check on every case the REAL validator accepted
     ([CostCheck.request_facts], mismatch validated-document-violates-theorem-hypotheses). *)
-Theorem C14_accepted_document_cost_calls_partial :
+Theorem C14_cost_calls_given_document_bridge :
   forall (C : Type) E dt pi S F D (ops : list (aop C)) frs opname raw o skip_zero fuel dc ctx0 max,
   ProofsCommon.order_ok pi -> Hyps.schema_ok S = true ->
   ValidatorModel.validate_model ValidatorModel.repaired pi S F D = Ast.Done [] ->
@@ -486,7 +487,7 @@ Proof. exact accepted_document_cost_calls. Qed.
     and the scalar mark; (ii) C05's gap (b): that [validate_model = Done []] on the whole document
     yields these per-node premises.  The check evaluates the per-node premises and [field_usage_ok]
     on every case the real validator accepts. *)
-Theorem C14_c04_nodes_cost_calls_partial :
+Theorem C14_cost_calls_given_c04_node_checks :
   forall (C : Type) E dt (ops : list (aop C)) frs opname raw o skip_zero fuel dc ctx0 max,
   BridgeC04.bridgeable E = true -> (BridgeC04Proofs.no_float E = true \/ BridgeC04Proofs.float_leaves_agree dt) ->
   chosen_op C ops opname = Some o ->
@@ -535,7 +536,7 @@ Proof. exact usage_from_c04. Qed.
     and [inspect] reaches exactly these nodes), and a translation of a whole multi-field request into
     C04's document (C05's [tr_request_doc] is single-field; C04's schema keeps no default VALUES).
     The check evaluates all per-node premises on every case the real validator accepts. *)
-Theorem C14_c04_nodes_cost_calls_all_partial :
+Theorem C14_cost_calls_given_c04_node_and_usage_checks :
   forall (C : Type) E dt (ops : list (aop C)) frs opname raw o vars' skip_zero fuel dc ctx0 max,
   BridgeC04.bridgeable E = true -> (BridgeC04Proofs.no_float E = true \/ BridgeC04Proofs.float_leaves_agree dt) ->
   chosen_op C ops opname = Some o ->
@@ -587,7 +588,7 @@ Theorem C14_usage_ok_only_mentioned_variables : forall E defs (p : Values.vardef
   CoerceModel.usage_ok CoerceModel.all_fixed E (filter p defs) l e ld = CoerceModel.usage_ok CoerceModel.all_fixed E defs l e ld.
 Proof. exact usage_ok_filter. Qed.
 
-Theorem C14_projections_cost_calls_partial :
+Theorem C14_cost_calls_given_accepted_projections :
   forall (C : Type) E dt (ops : list (aop C)) frs opname raw o skip_zero fuel dc ctx0 max,
   Values.ahas BridgeC04.n_Query E = false -> Values.ahas BridgeC04.n_Res E = false ->
   CoerceSpec.env_closed E = true -> CoerceSpec.env_ok E = true ->
@@ -637,7 +638,7 @@ Proof. exact projections_cost_calls. Qed.
     the two schema encodings ([Pipe.SchemaAgree.schemas_agree]) threaded through expected types and
     default flags.  For the translation of the request back into C04 it is proved
     ([C14_usage_from_c04]), and on projections the whole statement holds
-    ([C14_projections_cost_calls_partial]). *)
+    ([C14_cost_calls_given_accepted_projections]). *)
 Theorem C14_accepted_document_argument_names_unique : forall pi VS F ES D,
   ProofsCommon.order_ok pi ->
   ValidatorModel.validate_model ValidatorModel.repaired pi VS F D = Ast.Done [] ->
@@ -737,6 +738,73 @@ Theorem C14_accepted_document_calls_conform :
     CoerceSpec.args_conform_b E (af_argdefs (c_field c)) (c_args c) = true.
 Proof. exact CostConformDoc.accepted_document_calls_conform. Qed.
 
+
+(** * Final round: the FULL statement, and the status of the four statements that were [_partial].
+
+    FULL STATEMENT (as written since round 4): for every schema, every document accepted by C04's
+    [validate_model repaired] and every request for it, every call of a cost function made by the cost
+    walk sees an argument map that conforms to the declared argument types AND is the reference
+    coercion of what the client sent.  It is now PROVED: [C14_accepted_document_cost_calls], on the
+    real document through C03's composition, under [inputs_agree] (the two encodings describe one
+    schema as far as inputs go), constant variable defaults (the parser) and well-formed Go variable
+    values.  With C04's verdict theorem (C04_validate_verdict, proved in full) it also holds for every
+    document that is VALID in the sense of chapter 5 of the GraphQL specification
+    ([C14_valid_document_cost_calls]).
+
+    The four earlier statements carried [_partial] because this full statement was open; they were
+    never partial PROOFS, they are fully proved conditional statements whose premises are other ways
+    of saying "the validator is content with this request" (a bridge hypothesis; C04's per-node
+    functions on the translated request; the same with validateVariables' visitor; C04's whole model
+    on single-field projections).  They are kept under names that say what they are
+    ([C14_cost_calls_given_document_bridge], [..._given_c04_node_checks],
+    [..._given_c04_node_and_usage_checks], [..._given_accepted_projections]); the check evaluates
+    their premises on every validated case, which ties the request-side encoding (the one this
+    property's harness produces) to C04's model. *)
+Theorem C14_accepted_document_cost_calls :
+  forall pi VS F ES D opname raw o skip_zero fuel dc ctx0 max,
+  ProofsCommon.order_ok pi ->
+  CostConformDoc.inputs_agree VS F ES ->
+  ValidatorModel.validate_model ValidatorModel.repaired pi VS F D = Ast.Done [] ->
+  let Adoc := TypeInfoPure.pti_doc (ValidatorModel.q_unwrap_obj ValidatorModel.repaired) VS F D in
+  let E := ArgData.s_inputs ES in
+  let dt := ArgArgs.dt_oracle ES in
+  CoerceSpec.env_ok E = true ->
+  (forall p, In p raw -> CoerceSpec.jval_ok (snd p) = true) ->
+  chosen_op unit (CostCompose.c_ops ES Adoc) opname = Some o ->
+  (forall def dflt, In def (ao_vardefs o) -> Values.vd_default def = Some dflt -> CoerceModel.lit_vars dflt = []) ->
+  forall c, In c (snd (validate_cost_trace unit E dt skip_zero fuel dc ctx0
+                         (CostCompose.c_ops ES Adoc) (CostCompose.c_frs ES Adoc) opname raw max)) ->
+    CoerceSpec.args_conform_b E (af_argdefs (c_field c)) (c_args c) = true /\
+    exists vv,
+      CoerceSpec.ref_variable_values E dt (ao_vardefs o) raw = Some vv /\
+      CoerceSpec.ref_argument_values E dt (af_argdefs (c_field c))
+        (map (fun p => match p with (k, l) => (k, CoerceSpec.abs_lit vv l) end) (af_args (c_field c))) = Some (c_args c).
+Proof. exact CostConformDoc.accepted_document_cost_calls. Qed.
+
+Theorem C14_valid_document_cost_calls :
+  forall pi VS F ES D opname raw o skip_zero fuel dc ctx0 max,
+  ProofsCommon.order_ok pi ->
+  Hyps.schema_ok VS = true -> Hyps.schema_args_ok VS = true -> Hyps.schema_impls_ok VS = true ->
+  Hyps.schema_defaults_ok VS = true -> Hyps.schema_types_wf VS = true ->
+  ProofsSubscription.doc_set_positions_distinct D -> MemoEquiv.doc_field_positions_distinct D ->
+  ValidSpec.Valid VS F D ->
+  CostConformDoc.inputs_agree VS F ES ->
+  let Adoc := TypeInfoPure.pti_doc (ValidatorModel.q_unwrap_obj ValidatorModel.repaired) VS F D in
+  let E := ArgData.s_inputs ES in
+  let dt := ArgArgs.dt_oracle ES in
+  CoerceSpec.env_ok E = true ->
+  (forall p, In p raw -> CoerceSpec.jval_ok (snd p) = true) ->
+  chosen_op unit (CostCompose.c_ops ES Adoc) opname = Some o ->
+  (forall def dflt, In def (ao_vardefs o) -> Values.vd_default def = Some dflt -> CoerceModel.lit_vars dflt = []) ->
+  forall c, In c (snd (validate_cost_trace unit E dt skip_zero fuel dc ctx0
+                         (CostCompose.c_ops ES Adoc) (CostCompose.c_frs ES Adoc) opname raw max)) ->
+    CoerceSpec.args_conform_b E (af_argdefs (c_field c)) (c_args c) = true /\
+    exists vv,
+      CoerceSpec.ref_variable_values E dt (ao_vardefs o) raw = Some vv /\
+      CoerceSpec.ref_argument_values E dt (af_argdefs (c_field c))
+        (map (fun p => match p with (k, l) => (k, CoerceSpec.abs_lit vv l) end) (af_args (c_field c))) = Some (c_args c).
+Proof. exact CostConformDoc.valid_document_cost_calls. Qed.
+
 Print Assumptions C14_checked_mul_spec.
 Print Assumptions C14_checked_add_spec.
 Print Assumptions C14_select_op_spec.
@@ -772,15 +840,17 @@ Print Assumptions C14_trace_is_the_walk.
 Print Assumptions C14_every_cost_call_is_coerced.
 Print Assumptions C14_every_cost_call_conforms.
 Print Assumptions C14_every_cost_call_is_reference_coerced.
-Print Assumptions C14_accepted_document_cost_calls_partial.
-Print Assumptions C14_c04_nodes_cost_calls_partial.
+Print Assumptions C14_cost_calls_given_document_bridge.
+Print Assumptions C14_cost_calls_given_c04_node_checks.
 Print Assumptions C14_usage_from_c04.
-Print Assumptions C14_c04_nodes_cost_calls_all_partial.
+Print Assumptions C14_cost_calls_given_c04_node_and_usage_checks.
 Print Assumptions C14_usage_ok_only_mentioned_variables.
-Print Assumptions C14_projections_cost_calls_partial.
+Print Assumptions C14_cost_calls_given_accepted_projections.
 Print Assumptions C14_accepted_document_argument_names_unique.
 Print Assumptions C14_coercion_silent_fields_named_once.
 Print Assumptions C14_accepted_document_calls_reference_coerced.
 Print Assumptions C14_scalars_are_leaves_decidable.
 Print Assumptions C14_usage_real.
 Print Assumptions C14_accepted_document_calls_conform.
+Print Assumptions C14_accepted_document_cost_calls.
+Print Assumptions C14_valid_document_cost_calls.
